@@ -82,6 +82,16 @@ pub fn render(spec: &Spec, mode: u16) -> Result<Vec<u32>, Failure> {
     } else {
         s.frames[0].cels.push(Cel { layer: 1, x: 0, y: 0, opacity: spec.cop, content: CelContent::Image { w: spec.w, h: spec.h, pixels: to_bytes(&spec.src) }, user_data: None });
     }
+    // every fifth probe is observed through a second frame whose cels are links to the first; a link renders like
+    // its target (C06), whatever the link chunk's own opacity byte says (links to tilemap cels are refused today)
+    let via_links = (spec.back.len() as u64 + spec.lop as u64 * 3 + spec.cop as u64 * 5 + spec.mode as u64 + spec.src[0] as u64) % 5 == 0 && !spec.tilemap_top;
+    if via_links {
+        let other = |o: u8| if o == 255 { 0 } else { 255 - o / 2 };
+        s.frames.push(Frame { duration: 100, cels: vec![
+            Cel { layer: 0, x: 0, y: 0, opacity: other(255), content: CelContent::Link { frame: 0 }, user_data: None },
+            Cel { layer: 1, x: 0, y: 0, opacity: other(spec.cop), content: CelContent::Link { frame: 0 }, user_data: None },
+        ] });
+    }
     let mut plan = Plan::plain();
     plan.compress = 0;
     plan.zlevel = 1;
@@ -95,7 +105,7 @@ pub fn render(spec: &Spec, mode: u16) -> Result<Vec<u32>, Failure> {
         enc.bytes[14..18].copy_from_slice(&hf.to_le_bytes());
     }
     let f = AsepriteFile::read(&enc.bytes[..]).map_err(|e| Failure::new("load-error", format!("probe sprite failed to load: {}", e)))?;
-    let img = f.frame(0).image();
+    let img = f.frame(if via_links { 1 } else { 0 }).image();
     Ok(img.as_raw().chunks_exact(4).map(|c| pack(c[0], c[1], c[2], c[3])).collect())
 }
 
